@@ -8,7 +8,7 @@ class C05(Prop):
                 "C05_chunks_all_but_last_full", "C05_built_shape", "C05_layout_represents", "C05_search_bytes_eq_scan"]
     RULE = ("exhaustive over block counts n and fan-outs b (quick n<=40,b<=5; thorough n<=120 plus sizes around b^k up to 700, b<=9), "
             "three section layouts (one chromosome monotone ends, several chromosomes, non-monotone ends as in bigBed), plus 130-1030 chromosomes with 1-2 blocks each under fan-outs 2..256, "
-            "queries starting/ending on every chosen section boundary and one base either side; "
+            "queries starting/ending on every chosen section boundary and one base either side; a public-API stage (real writer and reader, short reads, zoom query before each main query on the same reader); "
             "non-trivial = at least 2 sections; distinct = distinct case text")
     CORRESPONDENCE = "R-tree index bytes and search answers of Model/RTree.v = get_rtreeindex/write_rtreeindex/search_cir_tree_inner"
     TRUSTED = ["verif_hooks::rtree_index_bytes / rtree_search wrappers in /repo (cfg bigtools_verif)"]
@@ -78,6 +78,22 @@ class C05(Prop):
                     qs += [[c, 0, 1000], [c, 0, 1], [c, 100, 101], [c, 5, 6]]
             qs.append([nchrom, 0, 10])
             yield sx([b, 1, 64, secs, qs]), [f"b={b}", "many-chroms", "levels~%d" % self.levels(len(secs), b)]
+        # public-API stage: the real writer (items_per_slot 1, fan-out b, one zoom level) and the real reader, which only
+        # gets short reads and is asked the zoom index before the main index on every query
+        for i in range(12 if tier == "quick" else 150):
+            b = rng.choice([2, 3, 4, 256, 400])
+            nchrom = rng.choice([1, 2, 3]); secs = []
+            n = rng.choice([5, 17, 40]) if b < 100 else rng.choice([300, 520])
+            for c in range(nchrom):
+                pos = rng.choice([0, 3])
+                for _ in range(max(1, n // nchrom)):
+                    ln = rng.choice([1, 2, 5, 10]); secs.append([c, pos, pos + ln]); pos += ln + rng.choice([0, 0, 1, 3])
+            qs = []
+            for _ in range(14):
+                c, st, en = rng.choice(secs)
+                for (s, e) in ((st, en), (max(st - 1, 0), st + 1), (en - 1, en + 1), (0, en + 5), (st, st + 100000)):
+                    qs.append([c, s, e])
+            yield sx([9, b, secs, qs[:40], rng.choice([4, 16, 64])]), [f"b={b}", "public-api", "short-reads", "zoom-then-main"]
         # degenerate: no sections at all (empty index)
         yield sx([2, 1, 0, [], [[0, 0, 10]]]), ["empty"]
 
